@@ -24,7 +24,7 @@ ASSUMPTIONS = [
     "which of several raising hooks' messages is kept is not demanded",
     "container hooks of a container whose own/outline tags match although no scenario in it is selected are not demanded",
 ]
-REQUIRED = {"grammar.fault_free": {"quick": 100, "thorough": 5000}, "recipe.same_hooks_with_the_autoretry_recipe": {"quick": 1000, "thorough": 30000}, "grammar.under_fault": {"quick": 3000, "thorough": 200000},
+REQUIRED = {"wild.hook_calls_nest_and_pair": {"quick": 8, "thorough": 300}, "grammar.fault_free": {"quick": 100, "thorough": 5000}, "recipe.same_hooks_with_the_autoretry_recipe": {"quick": 1000, "thorough": 30000}, "grammar.under_fault": {"quick": 3000, "thorough": 200000},
             "fault.owner_is_hook_error": {"quick": 3000, "thorough": 200000},
             "fault.outside_ancestry_unchanged": {"quick": 3000, "thorough": 200000},
             "fault.before_phase_suppresses_body": {"quick": 800, "thorough": 60000},
@@ -622,6 +622,10 @@ def run(spec, mon):
         failfast_directed(lab, mon, rng, outs)
     for i in range(2 if tier == "quick" else 20):
         process_hooks(mon, rng)
+    if spec["shard"] == 0:
+        # behave's own acceptance features as workload: the probes of bvm.wild in every behave process they spawn
+        from ..wild import run as wild
+        wild.feed(mon, ID, spec.get("tier", "quick"))
 
 
 def process_hooks(mon, rng):
@@ -712,4 +716,4 @@ LEVEL_TEXT = ("Fault enumeration: for every generated program the fault-free hoo
               "the owner's ancestry keeps its fault-free status, step statuses and step calls (with --stop: everything "
               "before is unchanged and nothing runs after). Thorough adds both exception kinds and pairs of faults.")
 LEVEL_NOTE = "Trusted: the automaton and ownership attribution in this module; programs are small; one or two faults per run."
-TECHNIQUE = "runtime monitoring: exhaustive single-fault injection at every hook call + online nesting automaton + differential comparison with the fault-free history"
+TECHNIQUE = "runtime monitoring: exhaustive single-fault injection at every hook call + online nesting automaton + differential comparison with the fault-free history; plus oracle-free invariant probes armed (sitecustomize) in every behave process that the repository's own acceptance features spawn"
